@@ -86,6 +86,8 @@ FamOk(h) ==
           [] h.dom = "min"   -> 0..1500 \subseteq {Val16(Recs[k].b) : k \in R}
           [] h.dom = "days"  -> LET ds == {DateOf(T, Recs[k].b) : k \in R} IN
                                 (36524..73048) \subseteq {DaysFromCivil(c.y, c.m, c.d) : c \in {x \in ds : x.m \in 1..12 /\ x.d \in 1..31}}
+          [] h.dom = "dtm"   -> LET zero == {Recs[k].b : k \in {j \in R : Recs[j].b[4] <= 2 /\ (Recs[j].b[1] + 256 * Recs[j].b[2] + 65536 * Recs[j].b[3] + 16777216 * Recs[j].b[4]) % 1440 = 0}} IN
+                                (0..33236) \subseteq {(b[1] + 256 * b[2] + 65536 * b[3] + 16777216 * b[4]) \div 1440 : b \in zero}   \* every day 01.01.2009..31.12.2099 at 00:00
           [] h.dom = "alltimes" -> Cardinality({Recs[k].b : k \in R}) >= 86400 + 1
           [] OTHER -> TRUE
 ASSUME \A k \in 1..Len(Fams) : FamOk(Fams[k]) \/ ~PrintT(<<"VF", "INCOMPLETE", Fams[k]>>)
